@@ -150,6 +150,21 @@ func runC08(env *Env, tier string) {
 	s := StartSut(env, c)
 	a := NewAdv(s, hb, AdvOpts{AllowCuts: true, AllowSends: true, AllowStop: true,
 		Weights: []int{8, 3, 2, 2, 2, 2, 2, 2, 2, 3, 2, 2, 6, 3, 8, 1}})
+	if ch.Chance("sendsfromcallbacks", 1, 3) {
+		// the application answers from inside its inbound callbacks (on the session's goroutine), which
+		// messages it answers is decided by their identity
+		k := 2 + ch.Choose("callbacksendmod", 3)
+		cbN := 0
+		s.E.App.OnCall = func(c AppCall) {
+			// (not while a second frame is waiting behind the one being handled: the wake-up for the queued
+			// message and the waiting frame would be two ready sources for the session's select - R1)
+			if (c.Kind == "FromAdmin" || c.Kind == "FromApp") && !c08PairInFlight && c.Type != "A" && (c.Seq+len(c.Type)+len(c.ID))%k == 0 {
+				cbN++
+				env.Stat("probe_send_from_callback")
+				s.E.Send("D", AppBody(fmt.Sprintf("cb%d", cbN)))
+			}
+		}
+	}
 	steps := 10 + ch.Choose("steps", 80)
 	for i := 0; i < steps && !env.Failed(); i++ {
 		// application sends also while disconnected / before logon
@@ -205,6 +220,9 @@ func runC08(env *Env, tier string) {
 // second waits in the session's inbound channel while the first is processed. The first is one that makes
 // the engine end the connection itself (or an ordinary message, as a control); the second is an
 // application message in sequence behind it.
+// c08PairInFlight is set while c08PipelinedPair has two frames under way (one worker runs one run at a time).
+var c08PairInFlight bool
+
 func c08PipelinedPair(env *Env, s *Sut, a *Adv) {
 	ch, p := env.Ch, s.P
 	// keep every engine timer out of the window in which the second message is waiting (two ready sources
@@ -240,6 +258,8 @@ func c08PipelinedPair(env *Env, s *Sut, a *Adv) {
 	y, _ := p.Build("D", AppBody(p.NextID()), MsgOpt{})
 	env.Stat("probe_pipelined_pair_" + []string{"logout", "staletime", "compid", "toolow", "app", "testrequest"}[kind])
 	s.E.App.SlowNext.Store(int64(5 * time.Millisecond))
+	c08PairInFlight = true
+	defer func() { c08PairInFlight = false }()
 	env.Rec(fmt.Sprintf("peer>:%d", p.Conn), "peer>", string(x), true)
 	p.EP.Feed(x)
 	env.Settle()
